@@ -270,7 +270,7 @@ def run_family(rep, acc, kind, elements, boxes, tag, junk, chunk=64, batch=320,
                               'repro': repro(kind, phys, st, deriv, bi, None)})
                     if oracle_stride:
                         for i in range((bj + blo) % oracle_stride, n, oracle_stride):
-                            check_oracle(rep, kind, selems[i], b, bool(r1[i]), deg, meta, i)
+                            check_oracle(rep, kind, selems[i], b, bool(r1[i]), deg, meta, i, elems[i], bi)
                     if classify_stride and not deg:
                         for i in range((bj * 7 + blo) % classify_stride, n, classify_stride):
                             rep.count(f'{kind}:' + U.classify(kind, selems[i], b))
@@ -362,18 +362,22 @@ def scalar_point(rep, acc, arr, i, elems, blist, res_by_box, scalar_boxes, meta,
     rep.count('scalar_cases:point')
 
 
-def check_oracle(rep, kind, el, b, got, deg, meta, i):
+def check_oracle(rep, kind, el, b, got, deg, meta, i, el_raw=None, bi=None):
     """implementation (= model) against the independent exact oracle.  For line-like and
-    polygon-like kinds the property only speaks about positive boxes."""
+    polygon-like kinds the property only speaks about positive boxes.  el, b: the geometry the
+    oracle judges (scaled to integers); el_raw, bi: what the library was given"""
     if deg and kind not in ('point', 'multipoint'):
         return
     want = U.oracle(kind, el, b)
     rep._c01_oracle += 1
     if want != got:
+        el_raw = el if el_raw is None else el_raw
+        bi = tuple(b) if bi is None else tuple(bi)
         viol(rep, f'oracle-differs:{kind}',
              f'{kind}: intersects_bounds says {got}, the exact point-set oracle says {want}',
-             {**meta, 'index': i, 'element': el, 'box': list(b), 'impl': got, 'oracle': want,
-              'repro': f'{G.array_class(kind).__name__}([{el!r}]).intersects_bounds({tuple(b)!r})'})
+             {**meta, 'index': i, 'element': el_raw, 'box': list(b), 'impl': got, 'oracle': want,
+              'repro': f'{G.array_class(kind).__name__}([{el_raw!r}], dtype={meta.get("subtype", "float64")!r})'
+                       f'.intersects_bounds({bi!r})'})
 
 
 def repro(kind, phys, st, deriv, b, inds):
